@@ -66,7 +66,7 @@ PROPS = {
         "not_decided": ["'always stops' as liveness", "actual timing"],
     },
     "C04": {
-        "modules": ["contracts.c04_tracking", "contracts.c05_collections", "contracts.c13_reference"],
+        "modules": ["contracts.c04_tracking", "contracts.c05_collections", "contracts.c13_reference", "contracts.c03_observers"],
         "level": "proof",
         "design_ref": "DESIGN.md section 8, C04",
         "trusted_base": [
@@ -98,7 +98,7 @@ PROPS = {
                         "boundary binding correctness (nested_bindings.h) beyond bind_sampled_input_to_source"],
     },
     "C03": {
-        "modules": ["contracts.c03_node", "contracts.c06_wiring", "contracts.c03_input_valid"],
+        "modules": ["contracts.c03_node", "contracts.c06_wiring", "contracts.c03_input_valid", "contracts.c03_observers"],
         "level": "proof",
         "design_ref": "DESIGN.md section 8, C03",
         "trusted_base": [
